@@ -495,10 +495,18 @@ pub fn enc_call(c: &Call, now_ms: u128, ftab: &[(u64, String)]) -> Sx {
         sx::opt(c.rate_exp.map(|k| sx::n(k))),
     ])
 }
+/// A validation message is compared by the field it blames, not by its wording (no property fixes the wording):
+/// "for `NAME`: text" becomes NAME (up to the first back-tick), any other message the empty string (Emf/Codec.v `blamed`).
+pub fn blamed(m: &[u8]) -> Vec<u8> {
+    match m.strip_prefix(b"for `") {
+        Some(r) => r.iter().take_while(|&&c| c != b'`').cloned().collect(),
+        None => vec![],
+    }
+}
 pub fn enc_res(r: &Res, out: &[u8], sorted: bool) -> Sx {
     let rr = match r {
         Res::Ok => Sx::L(vec![sx::n(0u8)]),
-        Res::Validation(m) => { let mut m: Vec<Vec<u8>> = m.iter().map(|x| x.as_bytes().to_vec()).collect(); m.sort(); Sx::L(vec![sx::n(1u8), Sx::L(m.into_iter().map(Sx::B).collect())]) }
+        Res::Validation(m) => { let mut m: Vec<Vec<u8>> = m.iter().map(|x| blamed(x.as_bytes())).collect(); m.sort(); Sx::L(vec![sx::n(1u8), Sx::L(m.into_iter().map(Sx::B).collect())]) }
         Res::Io(z) => Sx::L(vec![sx::n(2u8), sx::boolean(*z)]),
         Res::Panicked => Sx::L(vec![sx::n(3u8)]),
     };
